@@ -141,7 +141,18 @@ func (l *Logging) Abort(iface distsys.ArchetypeInterface) chan struct{} {
 
 func (l *Logging) PreCommit(iface distsys.ArchetypeInterface) chan error {
 	l.Log.Add(Event{Who: l.Who, Res: l.Name, Op: "precommit"})
-	return l.Inner.PreCommit(iface)
+	ch := l.Inner.PreCommit(iface)
+	if ch == nil {
+		return nil
+	}
+	// an asynchronous pre-commit: record its result (ground truth of why a commit did not go ahead)
+	out := make(chan error, 1)
+	go func() {
+		err := <-ch
+		l.Log.Add(Event{Who: l.Who, Res: l.Name, Op: "precommitted", Err: errStr(err)})
+		out <- err
+	}()
+	return out
 }
 
 func (l *Logging) Commit(iface distsys.ArchetypeInterface) chan struct{} {
